@@ -2,4 +2,4 @@
 From Coq Require Import List NArith ZArith Extraction ExtrOcamlBasic.
 From Kenlm Require Import C13.InterpSpec C13.InterpModel C13.MergeVocabModel C13.BseModel.
 Extraction Language OCaml.
-Extraction "extracted/c13_model.ml" merged_Z reunify_ok_Z merge_vocab Z.add encode decode encoded_length.
+Extraction "extracted/c13_model.ml" merged_Z reunify_ok_Z merge_vocab Z.add encode decode encoded_length max_followers_Z vocab_sizes_Z.
